@@ -26,7 +26,7 @@ ASSUMPTIONS = [
     "intervalOverlapCheck with both thresholds: both documented 'must' conditions have to hold",
     "invertIntervalList: inputs are disjoint, inside [lo,hi]; an empty list is only meaningful with both bounds",
 ]
-REQUIRED_CLASSES = ["find:regex_match", "values_in_intervals:sample_on_boundary", "values_at_points:tie",
+REQUIRED_CLASSES = ["views:tiny_gap", "find:regex_match", "values_in_intervals:sample_on_boundary", "values_at_points:tie",
                     "overlap_grid:touching", "invert:touching", "equality:perturbed_timestamp", "validate:corrupted"]
 
 
@@ -107,9 +107,25 @@ def run_views(case):
         if allp[0][0] != 0 or allp[-1][1] != spec["maxT"] or any(x[1] != y[0] for x, y in zip(allp, allp[1:])):
             raise Violation("non-entries", f"entries + non-entries do not tile [0,{spec['maxT']}]: {allp}")
         cl.append("non_entries")
+        if any(0 < g[1] - g[0] <= 1e-8 for g in want):
+            cl.append("tiny_gap")
         if any(x[1] == y[0] for x, y in zip(ents, ents[1:])):
             cl.append("touching_entries")
     return {"classes": cl, "nontrivial": bool(cl)}
+
+
+@st.composite
+def tiny_gap_tier(draw):
+    """Intervals separated by (or ending before the span end by) a few nanoseconds: real, positive-length gaps."""
+    n = draw(st.integers(1, 4))
+    t = draw(st.sampled_from([0.0, 4e-9, 0.5]))
+    ents = []
+    for i in range(n):
+        e = t + draw(st.sampled_from([0.25, 0.5, 1.0]))
+        ents.append([t, e, "ab"[i % 2]])
+        t = e + draw(st.sampled_from([0.0, 5e-9, 2e-9, 0.25]))
+    maxT = ents[-1][1] + draw(st.sampled_from([0.0, 2e-9, 1.0]))
+    return {"type": "interval", "name": "t", "entries": ents, "minT": 0.0, "maxT": maxT, "style": "dec"}
 
 
 # ------------------------------------------------------------------ sample queries
@@ -474,7 +490,8 @@ def run_validate(case):
 
 CHECKS = [
     Check("find", run_find, strategy=lambda tier: find_cases(), quick_n=1000, thorough_n=15000),
-    Check("views", run_views, strategy=lambda tier: st.builds(lambda t, d: {"tier": t, "deletes": d}, st.one_of(gen.interval_tier(), gen.point_tier()),
+    Check("views", run_views, strategy=lambda tier: st.builds(lambda t, d: {"tier": t, "deletes": d},
+                                                              st.one_of(gen.interval_tier(), gen.point_tier(), tiny_gap_tier()),
                                                               st.lists(st.integers(0, 7), max_size=2)),
           quick_n=800, thorough_n=12000, doc="timestamps, getNonEntries"),
     Check("values_in_intervals", run_values_in_intervals, strategy=lambda tier: vii_cases(), quick_n=800, thorough_n=12000),
